@@ -36,31 +36,27 @@ theorem foldl_ok_inv {α β : Type} (P : α → Prop) (F : Outcome α → β →
 
 def KeysIn (n2c : List (Nat × Nat)) (m : List (Nat × Rat)) : Prop := ∀ c ∈ m.map (·.1), ∃ v, alookup n2c v = some c
 
-theorem nw_fold_keys (n2c : List (Nat × Nat)) (F : Outcome (List (Nat × Rat)) → Nat → Outcome (List (Nat × Rat)))
-    (hF' : ∀ o x b, F o x = .ok b → ∃ a, o = .ok a)
-    (hF : ∀ m v b, F (.ok m) v = .ok b → b = m ∨ ∃ c w, alookup n2c v = some c ∧ b = ainsert m c w)
-    (vs : List Nat) (acc r : List (Nat × Rat)) (h : vs.foldl F (.ok acc) = .ok r) (hacc : KeysIn n2c acc) : KeysIn n2c r := by
-  refine foldl_ok_inv (KeysIn n2c) F hF' vs ?_ acc r h hacc
-  intro a v b _ hb hP
-  rcases hF a v b hb with rfl | ⟨c, w, hc, rfl⟩
-  · exact hP
-  · intro c' hc'
-    rw [AL.keys_insert] at hc'
-    split at hc'
-    · exact hP c' hc'
-    · rw [List.mem_append] at hc'
-      rcases hc' with h1 | h1
-      · exact hP c' h1
-      · simp only [List.mem_singleton] at h1; subst h1; exact ⟨v, hc⟩
-
-theorem neighborWeights_keys {g : Store} {u : Nat} {n2c : List (Nat × Nat)} {w2c : List (Nat × Rat)}
-    (h : neighborWeights g u n2c = .ok w2c) : KeysIn n2c w2c := by
+/-- induction principle for the candidate map: it is built from `[]` by `ainsert`s under keys `node2com v` -/
+theorem neighborWeights_ind {g : Store} {u : Nat} {n2c : List (Nat × Nat)} {w2c : List (Nat × Rat)}
+    (P : List (Nat × Rat) → Prop) (h0 : P [])
+    (hstep : ∀ m v c w, alookup n2c v = some c → P m → P (ainsert m c w))
+    (h : neighborWeights g u n2c = .ok w2c) : P w2c := by
+  have fold_ind : ∀ (F : Outcome (List (Nat × Rat)) → Nat → Outcome (List (Nat × Rat))),
+      (∀ o x b, F o x = .ok b → ∃ a, o = .ok a) →
+      (∀ m v b, F (.ok m) v = .ok b → b = m ∨ ∃ c w, alookup n2c v = some c ∧ b = ainsert m c w) →
+      ∀ (vs : List Nat) (acc r : List (Nat × Rat)), vs.foldl F (.ok acc) = .ok r → P acc → P r := by
+    intro F hF' hF vs acc r hr hacc
+    refine foldl_ok_inv P F hF' vs ?_ acc r hr hacc
+    intro a v b _ hb hP
+    rcases hF a v b hb with rfl | ⟨c, w, hc, rfl⟩
+    · exact hP
+    · exact hstep a v c w hc hP
   unfold neighborWeights at h
   simp only [bind, Outcome.bind] at h
   split at h
   next x m hm =>
-    have h1 : KeysIn n2c m := by
-      refine nw_fold_keys n2c _ ?_ ?_ _ [] m hm (by intro c hc; simp at hc)
+    have h1 : P m := by
+      refine fold_ind _ ?_ ?_ _ [] m hm h0
       · intro o x b hb
         cases o with
         | ok a => exact ⟨a, rfl⟩
@@ -82,7 +78,7 @@ theorem neighborWeights_keys {g : Store} {u : Nat} {n2c : List (Nat × Nat)} {w2
           all_goals (exact absurd hb (by simp))
     by_cases hd : g.specs.directed = true
     · rw [if_pos hd] at h
-      refine nw_fold_keys n2c _ ?_ ?_ _ m w2c h h1
+      refine fold_ind _ ?_ ?_ _ m w2c h h1
       · intro o x b hb
         cases o with
         | ok a => exact ⟨a, rfl⟩
@@ -104,6 +100,24 @@ theorem neighborWeights_keys {g : Store} {u : Nat} {n2c : List (Nat × Nat)} {w2
           all_goals (exact absurd hb (by simp))
     · rw [if_neg hd] at h; cases h; exact h1
   all_goals (exact absurd h (by simp))
+
+theorem neighborWeights_keys {g : Store} {u : Nat} {n2c : List (Nat × Nat)} {w2c : List (Nat × Rat)}
+    (h : neighborWeights g u n2c = .ok w2c) : KeysIn n2c w2c := by
+  refine neighborWeights_ind (KeysIn n2c) (by intro c hc; simp at hc) ?_ h
+  intro m v c w hc hP c' hc'
+  rw [AL.keys_insert] at hc'
+  split at hc'
+  · exact hP c' hc'
+  · rw [List.mem_append] at hc'
+    rcases hc' with h1 | h1
+    · exact hP c' h1
+    · simp only [List.mem_singleton] at h1; subst h1; exact ⟨v, hc⟩
+
+/-- the candidate map has pairwise distinct keys (it is built with `ainsert`) -/
+theorem neighborWeights_keys_nodup {g : Store} {u : Nat} {n2c : List (Nat × Nat)} {w2c : List (Nat × Rat)}
+    (h : neighborWeights g u n2c = .ok w2c) : (w2c.map (·.1)).Nodup :=
+  neighborWeights_ind (fun m => (m.map (·.1)).Nodup) (by simp) (fun m _ c w _ hP => AL.nodup_insert hP c w) h
+
 theorem updateBest_fst (gain : Nat → Rat → Rat) (cands : List (Nat × Rat)) (best : Nat × Rat) :
     (Louvain.updateBest gain cands best).1 = best.1 ∨ (Louvain.updateBest gain cands best).1 ∈ cands.map (·.1) := by
   unfold Louvain.updateBest
@@ -148,7 +162,7 @@ theorem visit_ok {lv : Level} {m res : Rat} {st st' : LState} {u : Nat}
       st'.di.stot.length = st.di.stot.length ∧
       ((best ≠ cur ∧ st' = moved lv st u cur best st'.di st'.risky) ∨
        (best = cur ∧ st' = { st with di := st'.di, risky := st'.risky })) := by
-  unfold visit at hv
+  unfold visit visitWith at hv
   simp only [bind, Outcome.bind] at hv
   cases h1 : alookup st.node2com u with
   | none => simp [h1, Outcome.ofOption] at hv
